@@ -4,8 +4,10 @@
 // see C02_compat.cpp) against the Lean model (IgrisModel/C02).
 //
 // Result line (compared with the model):  ret | the three vector registers as
-// size/capacity:contents | the slot events of the operation
+// size:contents | cap=<verdict> (std::vector's capacity contract, see capverdict) | led=<verdict> (constructed -
+// destroyed objects of the operation = change of the sizes).  Until round 2 the raw capacity and the raw event counts
 //   ev=construct,move-construct,destroy,assign,move-assign,allocate,deallocate
+// were part of the line; they depend on the growth policy, which the property does not fix (round 3, correction 0c).
 // Oracle (independent of the model): a mirror std::vector<int> per register, the
 // global live set of the instrumented element type (every constructed object
 // registers `this`), a tracking allocator (block sizes, no live object inside a
@@ -354,6 +356,10 @@ template <class V, class T, bool PORTABLE> struct Mach : MachBase
                 if (it == g_blocks.end() || it->second.first != r[i]->capacity())
                     o.fail("capacity() is not the size of the allocated block");
             }
+        // round 3: a vector without a block has no capacity (a failed allocation must not leave one behind)
+        for (int i = 0; i < NREG; i++)
+            if (!r[i]->data() && r[i]->capacity() != 0)
+                o.fail("capacity() " + std::to_string(r[i]->capacity()) + " without a block");
         if (g_blocks.size() != bl)
             o.fail(std::to_string(g_blocks.size()) + " blocks allocated, " + std::to_string(bl) + " owned");
         if (!g_fault.empty())
@@ -470,6 +476,15 @@ template <class V, class T, bool PORTABLE> struct Mach : MachBase
             else
                 o.tag("alloc-fuse-not-reached");
             o.result += std::string(" af=") + (first == "ok" ? "ok" : "BAD");
+            return;
+        }
+        if (w0[0] == "alx" && w0.size() >= 3)
+        { // a request no allocator grants (2^31 .. 2^63 elements): refused, no effects, no retry
+            std::vector<std::string> w(w0.begin() + 2, w0.end());
+            bool failed = step1(w, o, -1, atol(w0[1].c_str()));
+            if (!failed)
+                o.fail("the huge request was not refused");
+            o.tag("alloc-huge-refused");
             return;
         }
         step1(w0, o, -1, -1);
@@ -665,7 +680,7 @@ template <class V, class T, bool PORTABLE> struct Mach : MachBase
                 for (size_t k = before; k < capb; k++)
                     memset((void *)(v->data() + k), 0x5a, sizeof(T));
             BEGIN_EV;
-            v->resize(I(2));
+            v->resize((size_t)strtoull(w[2].c_str(), nullptr, 10));
             END_EV;
             mv.resize(I(2));
             o.tag((size_t)I(2) > before ? ((size_t)I(2) <= capb ? "resize-grow-in-capacity" : "resize-grow-realloc") : "resize-shrink");
@@ -674,7 +689,7 @@ template <class V, class T, bool PORTABLE> struct Mach : MachBase
         {
             size_t oc = v->capacity();
             BEGIN_EV;
-            v->reserve(I(2));
+            v->reserve((size_t)strtoull(w[2].c_str(), nullptr, 10));
             END_EV;
             mv.reserve(I(2));
             if (v->capacity() < (size_t)I(2))
@@ -1374,8 +1389,94 @@ static void leftover(out &o)
     (void)o;
 }
 
+// ---- calls BEFORE main(): a harness object of the earliest user priority runs a few operations from its constructor
+// (static-initialisation-order dependencies: the function-local static of flat_map::operator[] const, allocator
+// statics); a later op reports what it saw
+struct PreMain
+{
+    std::string report;
+    PreMain()
+    {
+        igris::vector<int> v;
+        for (int i = 0; i < 5; i++)
+            v.push_back(i * 3);
+        v.insert(v.begin() + 1, 99);
+        v.erase(v.begin() + 2, v.begin() + 4);
+        igris::vector<int> c(v);
+        igris::flat_map<int, int> m{{2, 20}, {1, 10}};
+        const igris::flat_map<int, int> &cm = m;
+        igris::flat_set<int> st;
+        st.insert(4);
+        st.insert(2);
+        std::string s = std::to_string(v.size()) + ":";
+        for (size_t k = 0; k < v.size(); k++)
+            s += (k ? "," : "") + std::to_string(v[k]);
+        s += " eq=" + std::to_string(c == v) + " cget=" + std::to_string(cm[7]) + "," + std::to_string(cm[1]) + " it=";
+        for (auto &kv : m)
+            s += std::to_string(kv.first) + ">" + std::to_string(kv.second) + ";";
+        s += " set=" + std::to_string(st.count(2)) + std::to_string(st.count(3)) + std::to_string(st.size());
+        report = s;
+    }
+};
+static PreMain g_premain __attribute__((init_priority(101)));
+
+// one long history on ONE object (>= 300 KiB of elements): reserve, n push_backs, every element checked, insert in
+// the middle, erase of a long range, resize up and down, copy, ==; linear in n.  The Lean driver does not run the slot
+// model on it (a closed form of the spec): correspondence + oracle only.
+template <class V> static std::string long_history(size_t n, out &o)
+{
+    V v;
+    std::vector<int> m;
+    v.reserve(n);
+    m.reserve(n);
+    const int *d0 = v.data();
+    for (size_t i = 0; i < n; i++)
+    {
+        v.push_back((int)(i * 7 + 1));
+        m.push_back((int)(i * 7 + 1));
+    }
+    if (v.data() != d0)
+        o.fail("reallocation inside the reserved capacity");
+    int x = -5;
+    v.insert(v.begin() + n / 2, x);
+    m.insert(m.begin() + n / 2, x);
+    v.erase(v.begin() + 10, v.begin() + n / 4);
+    m.erase(m.begin() + 10, m.begin() + n / 4);
+    v.resize(v.size() + 1000);
+    m.resize(m.size() + 1000);
+    v.resize(v.size() - 500);
+    m.resize(m.size() - 500);
+    V c(v);
+    bool same = v.size() == m.size();
+    long long sum = 0;
+    for (size_t i = 0; same && i < m.size(); i++)
+    {
+        same = v[i] == m[i];
+        sum += v[i];
+    }
+    if (!same)
+        o.fail("long history differs from std::vector");
+    if (!(c == v) || (c != v))
+        o.fail("copy of the long vector is not equal");
+    return std::to_string(v.size()) + " " + std::to_string(sum) + " " + std::to_string(v.capacity() >= v.size());
+}
+
 static void run_op(const std::vector<std::string> &w, const std::string &line, out &o)
 {
+    if (!w.empty() && w[0] == "premain")
+    {
+        o.result = g_premain.report;
+        if (o.result != "4:0,99,9,12 eq=1 cget=0,10 it=1>10;2>20; set=102")
+            o.fail("operations run before main() answer differently");
+        return;
+    }
+    if (w.size() == 3 && w[0] == "long")
+    {
+        size_t n = (size_t)atol(w[2].c_str());
+        o.result = w[1] == "p" ? long_history<pt::igris::vector<int, TA<int>>>(n, o) : long_history<igris::vector<int, TA<int>>>(n, o);
+        o.tag("long-input");
+        return;
+    }
     if (w.empty())
     {
         o.result = "bad-op";
@@ -2084,11 +2185,11 @@ static void gen(rng &r, const std::string &tier)
     g.begin("trk", true);
     g.emit("push 0 1");
     g.emit("@F:C02-portable-exception-paths x 1 resize 0 3");
-    g.emit("end");
+    g.emit("@F:C02-portable-exception-paths end"); // the object left behind m_size is never destroyed
     g.begin("trk", true);
     g.emit("tctor 0 1 2 3");
     g.emit("@F:C02-portable-exception-paths x 1 insx 0 1 7 8 9");
-    g.emit("end");
+    g.emit("@F:C02-portable-exception-paths end");
     int counter = (int)r.below(1000);
     for (const char *ty : {"trk", "int"})
         for (bool p : {false, true})
@@ -2100,6 +2201,24 @@ static void gen(rng &r, const std::string &tier)
         }
     g.exceptions(th ? 5 : 4, 1, counter);
     g.exceptions_portable(th ? 4 : 3);
+    g.emit("premain");
+    g.emit("long v 80000"); // 320 000 bytes of int
+    g.emit("long p 80000");
+    if (th)
+        g.emit("long v 1000000");
+    // requests no allocator grants: 2^31, 2^32, 2^61 (n * sizeof(T) = 2^63), 2^62, 2^63 elements
+    for (const char *ty : {"trk", "int"})
+        for (bool p : {false, true})
+            for (const char *big : {"2147483648", "4294967296", "2305843009213693952", "4611686018427387904", "9223372036854775808"})
+            {
+                g.begin(ty, p);
+                g.build(0, 2, 1);
+                g.emit(std::string("alx 4096 reserve 0 ") + big);
+                g.emit(std::string("alx 4096 resize 0 ") + big);
+                g.emit("push 0 5");
+                g.emit("iter 0");
+                g.emit("end");
+            }
     // round 3: type widths, allocation failure, comparison under a non-bytewise element equality
     for (const char *ty : {"trk", "int"})
         for (bool p : {false, true})
